@@ -56,6 +56,7 @@ def run_job(mirs, job, tier, seed):
                     if r_ != z3.sat: raise Unmodelled('solver returned unknown on the final feasibility check of a path')
                     ex.model = m_
                 ex.stats.paths += 1
+                if vm.pc: ex.stats.nontrivial_paths += 1
                 for n in vm.notes: reached.add(n[0] if isinstance(n, tuple) else n)
                 reached.update(getattr(vm, 'witness', ()))
                 if out:
@@ -72,6 +73,7 @@ def run_job(mirs, job, tier, seed):
                 ex.stats.infeasible += 1
             except PanicEdge as p:
                 ex.stats.paths += 1
+                if vm.pc: ex.stats.nontrivial_paths += 1
                 desc = getattr(vm, 'describe', None)
                 m = model_of(vm)
                 if m is None:
